@@ -102,13 +102,15 @@ struct World {
     style: usize,
 }
 static COUNTER: std::sync::atomic::AtomicUsize = std::sync::atomic::AtomicUsize::new(0);
-/// 0 = every root in its plain spelling; k > 0: layer i is spelled in style (k + i) mod 6 of
+/// 0 = every root in its plain spelling; k > 0: layer i is spelled in style (k + i) mod 8 of
 /// plain | trailing '/' | via "<root>/x/../lN" | doubled "//" | a symlink to the layer directory | relative to the cwd
+/// | the layer directory itself has a non-ASCII (multi-byte UTF-8) name, two variants
 static ROOT_STYLE: std::sync::atomic::AtomicUsize = std::sync::atomic::AtomicUsize::new(0);
 fn set_root_style(k: usize) {
     ROOT_STYLE.store(k, std::sync::atomic::Ordering::Relaxed);
 }
-const ROOT_STYLES: [&str; 6] = ["plain", "trailing-slash", "dotdot", "double-slash", "symlink", "relative"];
+const ROOT_STYLES: [&str; 8] =
+    ["plain", "trailing-slash", "dotdot", "double-slash", "symlink", "relative", "unicode-a", "unicode-b"];
 
 impl World {
     fn create(nlayers: usize) -> World {
@@ -119,11 +121,15 @@ impl World {
         let mut layers = Vec::new();
         let mut given = Vec::new();
         for i in 0..nlayers {
-            let name = format!("l{}", i + 1);
+            let st = if style == 0 { "plain" } else { ROOT_STYLES[(style + i) % ROOT_STYLES.len()] };
+            let name = match st {
+                "unicode-a" => format!("\u{30b2}\u{30fc}\u{30e0}{}", i + 1),
+                "unicode-b" => format!("m\u{f3}dulo-\u{e9}{}", i + 1),
+                _ => format!("l{}", i + 1),
+            };
             let l = root.join(&name);
             std::fs::create_dir_all(&l).expect("create layer dir");
             let r = root.display().to_string();
-            let st = if style == 0 { "plain" } else { ROOT_STYLES[(style + i) % ROOT_STYLES.len()] };
             given.push(match st {
                 "trailing-slash" => format!("{}/{}/", r, name),
                 "dotdot" => {
@@ -306,14 +312,25 @@ fn wrapc<T, E>(r: Result<Result<T, E>, String>, f: impl FnOnce(T) -> Value) -> V
 }
 
 // ---------------------------------------------------------------------------------------------- typed projections
+/// everything the object shows, INCLUDING what it serialises to (an archive parsed with one configuration but
+/// tagged with another shows the same cells / messages and different bytes)
+fn ser_of(r: Result<Result<Vec<u8>, String>, String>) -> Value {
+    match r {
+        Ok(Ok(b)) => json!({"ok": true, "v": bytes_to_json(&b)}),
+        Ok(Err(_)) => json!({"ok": false, "v": []}),
+        Err(_) => json!({"ok": false, "v": [0]}),
+    }
+}
 fn proj_bin(a: &BinArchive) -> Value {
     let mut p = proj::project(a, "");
     p.as_object_mut().unwrap().remove("endian");
+    p["ser"] = ser_of(catch(|| a.serialize().map_err(|e| e.to_string())));
     p
 }
 fn proj_text(a: &TextArchive) -> Value {
     let entries: Vec<Value> = a.get_entries().iter().map(|(k, m)| json!([str_to_codes(k), str_to_codes(m)])).collect();
-    json!({"title": str_to_codes(a.get_title()), "entries": entries})
+    json!({"title": str_to_codes(a.get_title()), "entries": entries,
+           "ser": ser_of(catch(|| a.serialize().map_err(|e| e.to_string())))})
 }
 fn proj_pack(m: &IndexMap<String, Vec<u8>>) -> Value {
     Value::Array(m.iter().map(|(k, v)| json!([str_to_codes(k), bytes_to_json(v)])).collect())
@@ -429,6 +446,10 @@ fn apply(sys: &Sys, ev: &Value) -> Map<String, Value> {
             if op == "write_archive" {
                 let built = fixture_bin(endian);
                 let a = match prov {
+                    "reread" => match catch(|| fs.read_archive(path, loc)) {
+                        Ok(Ok(a)) => a,
+                        _ => built,
+                    },
                     "loaded" => BinArchive::from_bytes(&built.serialize().expect("fixture"), endian).expect("fixture"),
                     "titled" => BinArchive::new(endian),
                     _ => built,
@@ -439,6 +460,14 @@ fn apply(sys: &Sys, ev: &Value) -> Map<String, Value> {
                 let f = if be { TextArchiveFormat::ShiftJIS } else { TextArchiveFormat::Unicode };
                 let built = fixture_text(f, endian);
                 let a = match prov {
+                    // read -> (edit) -> write back the same object -> read
+                    "reread" => match catch(|| fs.read_text_archive(path, loc)) {
+                        Ok(Ok(mut a)) => {
+                            a.set_message("k9", "edited");
+                            a
+                        }
+                        _ => built,
+                    },
                     "loaded" => TextArchive::from_bytes(&built.serialize().expect("fixture"), f, endian).expect("fixture"),
                     "titled" => {
                         let mut t = TextArchive::new(f, endian);
@@ -595,7 +624,30 @@ fn run_events(w: &World, sys: &Sys, mut snap: Value, evs: &[Value], events: &mut
             rec.insert("post".into(), after.clone());
             snap = after;
         }
+        // C13 "every listed path exists according to the filesystem's own existence queries": after a listing that
+        // asked for it ("sound": true) the listed paths (all of a short listing, an even spread of a long one) are put
+        // to exists() on the same object
+        let mut sound = Vec::new();
+        if rec.get("sound").and_then(|v| v.as_bool()).unwrap_or(false) && rec["res"]["ok"].as_bool().unwrap_or(false) {
+            if let Some(items) = rec["res"]["v"].as_array() {
+                let step = (items.len() + 11) / 12;
+                for it in items.iter().step_by(step.max(1)) {
+                    if let Ok(sp) = String::from_utf8(json_to_bytes(it)) {
+                        if sp.starts_with('/') {
+                            continue; // not layer-relative: the listing itself is already rejected
+                        }
+                        let comps: Vec<String> = sp.split('/').filter(|c| !c.is_empty()).map(|c| c.to_string()).collect();
+                        let mut q = mk_event("exists", &comps, false, false);
+                        q["sound_of"] = json!(true);
+                        sound.push(q);
+                    }
+                }
+            }
+        }
         events.push(Value::Object(rec));
+        if !sound.is_empty() {
+            snap = run_events(w, sys, snap, &sound, events);
+        }
         if let Some(Value::Array(follow)) = then {
             snap = run_events(w, sys, snap, &follow, events);
         }
@@ -678,8 +730,8 @@ fn replay_mode(cases_path: &str, out_path: &str, from: usize) {
 // ---------------------------------------------------------------------------------------------- random histories
 const LONG_NAME: &str = "abcdefghijklmnopqrstuvwxyzabcdefghijklmnopqrstuvwxyzabcdefghijklmnopqrstuvwxyzabcdefghijklmnopqrstuvwxyzabcdefghijklmnopqrstuvwxyzabcdefghijklmnopqrstuvwxyzabcdefghijklmnopqrstuvwxyzabcdefghijklmnopqrstuv";
 // incl. unusual but legal bytes: a backslash, a trailing dot, a lone '@', names equal to markers, a 200-byte name
-const NAMES: [&str; 37] = [
-    "b\\c.bin", "k\\d", "x.", "e_", "@", "_x", LONG_NAME,
+const NAMES: [&str; 41] = [
+    "notes..txt", "v1..2", "e...bin", "x..", "b\\c.bin", "k\\d", "x.", "e_", "@", "_x", LONG_NAME,
     "a", "a.b", "z", "m", "d", "e", "f.bin", "g.bin.lz", "h.cmp", "i.cms", "x", "xy", "k.bin", "q", "a b", ".h", "\u{e9}",
     "s_x", "s_f.bin", "e_x", "d_g.bin.lz", "f_h.cmp", "@E", "E", "S", "@S", "@NOE_SP", "@NOA_EN", "@J", "G",
 ];
@@ -1014,6 +1066,16 @@ fn record_mode(out_path: &str, runs: usize, len: usize, from: usize) {
                     pre.push(mk_event(op, &["t".to_string(), format!("{}{}", name, suf)], false, false));
                 }
             }
+            // read -> edit -> write the same object back -> read, for both archive kinds
+            for name in ["binle.bin", "binbe.bin", "txtle.bin", "txtbe.bin"] {
+                let (wop, rop) = if name.starts_with("bin") { ("write_archive", "read_archive") } else { ("write_text_archive", "read_text_archive") };
+                let pth = ["t".to_string(), name.to_string()];
+                let mut e = mk_event(wop, &pth, false, false);
+                e["fix"] = json!("le");
+                e["prov"] = json!("reread");
+                pre.push(e);
+                pre.push(mk_event(rop, &pth, false, false));
+            }
             snap = run_events(&w, &sys, snap, &pre, &mut events);
         }
         for _ in 0..len {
@@ -1066,7 +1128,7 @@ fn record_mode(out_path: &str, runs: usize, len: usize, from: usize) {
                     2 => {
                         let mut e = mk_event(if rng.chance(1, 2) { "write_archive" } else { "write_text_archive" }, &p, false, loc);
                         e["fix"] = json!("le");
-                        e["prov"] = json!(*rng.pick(&["built", "loaded", "titled"]));
+                        e["prov"] = json!(*rng.pick(&["built", "loaded", "titled", "reread", "reread"]));
                         e
                     }
                     _ => {
@@ -1100,7 +1162,7 @@ fn record_mode(out_path: &str, runs: usize, len: usize, from: usize) {
                 } else {
                     let mut e = mk_event(if rng.chance(1, 2) { "write_archive" } else { "write_text_archive" }, &p, false, loc);
                     e["fix"] = json!(if rng.chance(1, 2) { "be" } else { "le" });
-                    e["prov"] = json!(*rng.pick(&["built", "loaded", "titled"]));
+                    e["prov"] = json!(*rng.pick(&["built", "loaded", "titled", "reread", "reread"]));
                     pool.paths.push(p);
                     e
                 }
@@ -1131,13 +1193,16 @@ fn record_mode(out_path: &str, runs: usize, len: usize, from: usize) {
                 if let Some(g) = *rng.pick(&GLOBS) {
                     e["glob"] = json!({"some": true, "s": g});
                 }
+                e["sound"] = json!(profile == "c13");
                 e
             } else {
                 let mut p = rand_path(&mut rng, &pool, loc);
                 if rng.chance(2, 3) && !p.is_empty() {
                     p.pop();
                 }
-                mk_event("subdirectories", &p, rng.chance(1, 3), loc)
+                let mut e = mk_event("subdirectories", &p, rng.chance(1, 3), loc);
+                e["sound"] = json!(profile == "c13");
+                e
             };
             snap = run_events(&w, &sys, snap, std::slice::from_ref(&ev), &mut events);
         }
